@@ -363,6 +363,89 @@ func init() {
 		return
 	}}
 
+	// the whole armored read stack (punctuatedReader -> framedDecoderStream -> base-X decoder), call by
+	// call, against the composed state machines of coq/model/ArmorStream.v
+	evaluators["ad_sched"] = evaluator{run: func(h *H, c Case) (fs []Failure) {
+		segs := parseSegs(c.A["segs"])
+		final := errOfName(c.A["final"])
+		var sizes []int
+		for _, s := range strings.Split(c.A["sizes"], ",") {
+			n, _ := strconv.Atoi(s)
+			sizes = append(sizes, n)
+		}
+		var hc saltpack.HeaderChecker
+		var fc saltpack.FrameChecker
+		if c.A["chk"] != "none" {
+			t := typOf[c.A["chk"]]
+			hc = func(hd string) (string, error) { return saltpack.VerifParseFrame(hd, t, true) }
+			fc = func(hd, ft string) (string, error) { return saltpack.CheckArmor62(hd, ft, t) }
+		}
+		var d io.Reader
+		if pe := guard(func() error {
+			var e error
+			d, _, e = saltpack.NewArmor62DecoderStream(&schedReader{segs: cloneSegs(segs), final: final}, hc, fc)
+			return e
+		}); pe != nil {
+			return append(fs, Failure{Kind: "oracle", Key: "armor-stream-panic", Desc: clip(pe.Error(), 200)})
+		}
+		var got []string
+		var flat []byte
+		var endErr error
+		for _, n := range sizes {
+			buf := make([]byte, n)
+			var k int
+			var err error
+			if pe := guard(func() error { k, err = d.Read(buf); return nil }); pe != nil {
+				return append(fs, Failure{Kind: "oracle", Key: "armor-stream-panic", Desc: clip(pe.Error(), 200)})
+			}
+			flat = append(flat, buf[:k]...)
+			if err == nil {
+				got = append(got, "D:"+hx(buf[:k]))
+			} else {
+				got = append(got, "E:"+hx(buf[:k])+":"+errClass(err))
+				if endErr == nil {
+					endErr = err
+				}
+			}
+		}
+		m := strings.Join(h.rn.Call("ad_sched", c.A["chk"], c.A["segs"], c.A["final"], c.A["sizes"]), " ")
+		if strings.Contains(m, "Unmodelled") {
+			h.res.Unmodelled++
+		} else if m != strings.Join(got, " ") {
+			fs = append(fs, Failure{Kind: "correspondence", Key: "armor-stream", Desc: fmt.Sprintf("model %.200s | impl %.200s", m, strings.Join(got, " "))})
+		}
+		// property oracle: the one-shot form on the bytes alone
+		var all []byte
+		var srcErr error
+		for _, s := range segs {
+			all = append(all, s.data...)
+			if s.err != nil {
+				srcErr = s.err
+				break
+			}
+		}
+		if srcErr == nil {
+			srcErr = final
+		}
+		var one []byte
+		var oneErr error
+		if hc == nil {
+			one, _, _, oneErr = saltpack.Armor62Open(string(all))
+		} else {
+			one, _, _, _, oneErr = saltpack.Armor62OpenWithValidation(string(all), hc, fc)
+		}
+		if oneErr == nil && !bytes.HasPrefix(one, flat) {
+			fs = append(fs, Failure{Kind: "oracle", Key: "armor-stream-delivers-other-bytes", Desc: fmt.Sprintf("the stream delivered %d bytes that are not a prefix of the %d bytes the same text dearmors to", len(flat), len(one))})
+		}
+		if endErr == io.EOF && (oneErr != nil || srcErr != io.EOF || !bytes.Equal(flat, one)) {
+			fs = append(fs, Failure{Kind: "oracle", Key: "armor-stream-clean-end-on-bad-input", Desc: fmt.Sprintf("clean end after %d bytes although the one-shot form gives %d bytes, %v and the source ends with %v", len(flat), len(one), oneErr, srcErr)})
+		}
+		if srcErr == io.EOF && oneErr == nil && endErr != nil && endErr != io.EOF {
+			fs = append(fs, Failure{Kind: "oracle", Key: "armor-stream-rejects-valid", Desc: fmt.Sprintf("the stream ends with %v on a text the one-shot form dearmors", endErr)})
+		}
+		return
+	}}
+
 	// punctuatedReader, call by call, against the state-machine model
 	evaluators["pr_sched"] = evaluator{run: func(h *H, c Case) (fs []Failure) {
 		segs := parseSegs(c.A["segs"])
